@@ -289,3 +289,16 @@ Example ex_stale_repaired :
   | _, _ => false
   end = true.
 Proof. vm_compute. reflexivity. Qed.
+
+(* ---- source equivalence (tools/go2coq; gen/SrcFns.v is regenerated from /repo on every run): the
+        Gallina definition translated from copy/copy.go's containsWildcards (Linux) equals, on every
+        component without a backslash (the ones the copy model covers: has_unsupported), the model's
+        has_wild by which splitWildcards finds the first wildcard component; and its loop never runs
+        out of the fuel the translator derived ---- *)
+From FSGen Require SrcFns.
+From FS Require Proofs.Src.CopyContainsWildcardsEq.
+Theorem copy_containsWildcards_src_eq :
+  forall c, existsb (N.eqb ch_bsl) c = false ->
+    SrcFns.copy_containsWildcards c = Some (has_wild c).
+Proof. exact CopyContainsWildcardsEq.copy_containsWildcards_src_eq. Qed.
+Print Assumptions copy_containsWildcards_src_eq.
